@@ -17,6 +17,7 @@ implementation returns; a watchdog detects parses that do not return.
 import re
 from vlib import core, repair
 from gen import repairgen
+from checks import c07_stall
 
 KNOWN_OVERFLOW = ("recovery panics: the u16 repair cost overflows (checked_add(..).unwrap() in CPCTPlus::insert/delete) when no repair "
                   "is found below cost 65535 (large token costs)")
@@ -141,8 +142,29 @@ def run(ctx):
     wide = Gram(["a", "b", "c", "d", "x"], [("S", [[rr("A")] * 12 + [t("x")]]),
                                             ("A", [[t("a")], [t("b")], [t("c")], [t("d")]])])
     cases.insert(0, ("wideinsert", wide, "unit", {}, [[], ["x"], ["a", "x"]]))
+    # the corpus whose recoveries are re-run with the deadline passing at every controlled position (checks/c07_stall.py)
+    cases[1:1] = c07_stall.corpus()
     # (a larger budget for the corpus: the overflow needs ~260 search levels before the budget ends)
     results = repair.run_cases(corpus, budget_ms=8000) + repair.run_cases(cases)
+    # the recovery deadline as a controlled input: the corpus above plus generated inputs on conflict-free tables whose
+    # recovery inserts something, preferring inputs with several errors
+    sweep, extra = [], []
+    for r in results:
+        if not r.ok:
+            continue
+        free = r.conflicts is None and r.verdict.get("single", False)
+        for inp in r.inputs:
+            if inp.value is None or not (inp.value.startswith("acc ") or inp.value == "none"):
+                continue
+            if r.fam.startswith(c07_stall.FAM):
+                sweep.append((r, inp))
+            elif free and inp.errors and len(inp.toks) <= 40 and any(st[0] == "I" for e in inp.errors for q in e[3] for st in q):
+                extra.append((len(inp.errors) >= 2, r, inp))
+    ctx.rng.shuffle(extra)
+    extra.sort(key=lambda x: not x[0])
+    sweep += [(r, inp) for _, r, inp in extra[:ctx.n(10, 120)]]
+    # (run first: its few replays are not crowded out by a flood from the generated cases, and do not crowd those out: capped)
+    c07_stall.run(ctx, sweep)
     for r in results:
         if not r.ok:
             ctx.count("grammar_rejected_" + r.err.split()[0])
@@ -229,4 +251,7 @@ def run(ctx):
                         "only, each confirmed by the extracted model: interpreter out of fuel / search-move probe out of fuel / applied "
                         "sequence invalid / returns with unit costs) is reported through known_key and counted as a discharged "
                         "obligation; everything else alarms",
-                        "model cap: at most 300 errors per input are replayed by the mirror (prefix compared)"]
+                        "model cap: at most 300 errors per input are replayed by the mirror (prefix compared)",
+                        "deadline sweep (c07_stall): the parse runs over a harness lexeme type whose Lexeme::new_faulty sleeps once; the "
+                        "deadline can therefore only be made to pass at a new_faulty call (search insert, ranking replay, final replay, "
+                        "end-of-input lookahead), not between two arbitrary instructions"]
